@@ -38,7 +38,7 @@ def check_C11(tier, seed):
                  "deadline, a process-wide panic hook as the only view of pool-thread / flush-job panics, and the table `panic site -> locks held` of canary.rs::held_of",
                  "thread scheduling, std::sync poisoning semantics and the one-shot / mpsc channels are not modelled: the model states their effect on the bookkeeping"],
         assumptions=["fairness: a live worker / the flush thread keeps iterating (C11_progress, C11_flush_handshake are statements about iterations)"],
-        rule="every known-finding request once with 1 and with 2 workers (in memory / on disk), plus random scenarios: 1-3 workers, memory/disk, 2-6 rounds of 1-3 "
+        rule="every known-finding request once (1 worker in memory or 2 workers on disk), plus random scenarios: 1-3 workers, memory/disk, 2-6 rounds of 1-3 "
              "concurrent requests drawn from 14 valid, 27 failing (bad SQL, type errors, overflow, division by zero, unsupported features) and - in 1 scenario of 5, at most "
              "one per scenario - 17 damaging requests; after every round a canary ingestion, force_flush, query and table_stats; the extracted model is fed the observed "
              "request outcomes and must reproduce every canary observation; non-trivial = every scenario; distinct by scenario hash")
